@@ -64,6 +64,9 @@ def step (st : Srv) (ws : List String) : Srv × String :=
       (st, s!"enc={showTok r.1} hdr={showHdr r.2} adv={hexArg st.advert}")
     | _, _, _, _ => (st, "bad-op")
   | ["tables"] => (st, tables)
+  -- concurrent-response search family: no model involved, the specification is simply
+  -- "every response is lossless" (decided by the harness oracle on the real responses)
+  | "burst" :: _ => (st, "burst lossless")
   | _ => (st, "bad-op")
 
 def drive : IO Unit := driveLoop initSrv step
